@@ -73,7 +73,7 @@ BasesQuick == {BaseFull, BaseBlock, BaseBare}
 BasesThorough(dummy) ==
     {t \in {Thing(2, bl, op, 1, 1, IF op = 0 THEN V1 ELSE V10, sl[1], sl[2], sl[3], rp, us, 0, 0) :
               bl \in 0..2, op \in {0, 1, 2, 5}, sl \in {<<0, 0, 0>>, <<1, 0, 0>>, <<1, 1, 1>>, <<0, 0, 2>>, <<0, 0, 1>>},
-              rp \in {0, 1}, us \in {0, 3}} : ValidThing(t)}
+              rp \in {0}, us \in {0, 3}} : ValidThing(t)}
 
 (* ---- CPV universes ---- *)
 CpvV(c, p, v) == Thing(1, 0, 1, c, p, v, 0, 0, 0, 0, 0, 0, 0)
